@@ -456,6 +456,10 @@ def _flip_conf(kind):
             "if_control_statements_ends_group": "yes", "case_control_statements_ends_group": "yes", "loop_control_statements_ends_group": "yes",
             "ignore_single_line": "no", "align_left": "yes", "align_paren": "no",
         }
+    elif kind == "flipC":
+        rules["global"] = {"number_of_spaces": ">1", "case": "upper_or_lower"}
+    elif kind == "flipD":
+        rules["global"] = {"number_of_spaces": "2+", "indent_size": 4}
     elif kind == "flipB":
         o = vhdlFile_pkg.vhdlFile([""])
         rl = rule_list.rule_list(o, base.severity_list)
@@ -479,7 +483,7 @@ def _flip_conf(kind):
 
 
 def get_conf2(name):
-    if name in ("flipA", "flipB"):
+    if name in ("flipA", "flipB", "flipC", "flipD"):
         if name not in _CONF:
             _CONF[name] = _flip_conf(name)
         return _CONF[name]
@@ -594,7 +598,14 @@ def pipeline(eng, p):
         rl.clear_violations()
         rl.check_rules(bAllPhases=True)
         v_model = violations_of(rl)
-        o2 = vhdlFile_pkg.vhdlFile(list(y1))
+        from vsg import exceptions as _exc
+
+        try:
+            o2 = vhdlFile_pkg.vhdlFile(list(y1))
+        except _exc.ClassifyError:
+            clauses.append(("%s:fixed_text_is_accepted" % prop, False))
+            return clauses
+        clauses.append(("%s:fixed_text_is_accepted" % prop, True))
         o2.set_indent_map(conf.dIndent)
         if prop == "C08":
             a = [(type(t), t.value, t.indent) for t in oFile.lAllObjects]
@@ -642,7 +653,7 @@ PINNED = {
     "C07": ["fixtures/port__rule_010_test_input.vhd"],
     "C10": ["fixtures/variable__rule_011_test_input.vhd"],
     "C18": ["fixtures/constant__rule_012_test_input.vhd", "fixtures/when__rule_001_test_input.vhd"],
-    "C19": ["fixtures/constant__rule_017_test_input.vhd", "fixtures/when__rule_001_test_input.vhd", ("fixtures/constant__rule_016_test_input.vhd", "flipA")],
+    "C19": ["fixtures/constant__rule_017_test_input.vhd", "fixtures/when__rule_001_test_input.vhd", ("fixtures/constant__rule_016_test_input.vhd", "flipA"), ("fixtures/signal__rule_006_test_input.vhd", "flipC"), ("fixtures/port__rule_007_test_input.vhd", "flipD")],
 }
 ALL_FIXTURES = sorted("fixtures/" + f for f in os.listdir(os.path.join(CORPUS, "fixtures")) if f.endswith(".vhd"))
 SKELETONS = sorted("skeletons/" + f for f in os.listdir(os.path.join(CORPUS, "skeletons")) if f.endswith(".vhd")) if os.path.isdir(os.path.join(CORPUS, "skeletons")) else []
@@ -670,9 +681,9 @@ def pick_params(prop, tier, seed):
     for k, f in enumerate(files):
         conf = "default"
         if tier == "thorough":
-            conf = ["default", "default", "jcl", "flipA", "flipB"][k % 5]
-        elif k % 4 == 3:
-            conf = ["jcl", "flipA", "flipB"][(k // 4) % 3]
+            conf = ["default", "jcl", "flipA", "flipB", "flipC", "flipD"][k % 6]
+        elif k % 3 == 2:
+            conf = ["jcl", "flipA", "flipB", "flipC", "flipD"][(k // 3) % 5]
         if isinstance(f, tuple):
             f, conf = f
         cl = code_lines(f)
